@@ -525,3 +525,55 @@ func callsIn(b *ssa.BasicBlock) []*ssa.Call {
 	}
 	return out
 }
+
+
+// ctorScope: the parser constructor, its closures (range-over-func bodies included) and the unexported functions of the
+// package that are called only from inside that scope (a constructor split into helpers), to depth 3.
+func (c *Ctx) ctorScope(a *parserAnchors) []*ssa.Function {
+	if a == nil || a.ctor == nil {
+		return nil
+	}
+	in := map[*ssa.Function]bool{}
+	var order []*ssa.Function
+	add := func(f *ssa.Function) {
+		for _, g := range withClosures(f) {
+			if !in[g] {
+				in[g] = true
+				order = append(order, g)
+			}
+		}
+	}
+	add(a.ctor)
+	for depth := 0; depth < 3; depth++ {
+		grew := false
+		for _, f := range append([]*ssa.Function(nil), order...) {
+			allInstrs(f, func(_ *ssa.BasicBlock, _ int, ins ssa.Instruction) {
+				ci, ok := ins.(ssa.CallInstruction)
+				if !ok {
+					return
+				}
+				cal := ci.Common().StaticCallee()
+				if cal == nil || in[cal] || cal.Pkg != a.ctor.Pkg || cal.Object() == nil || cal.Object().Exported() {
+					return
+				}
+				// all call sites inside the scope
+				only := true
+				for _, g := range c.libFunctions() {
+					allInstrs(g, func(_ *ssa.BasicBlock, _ int, in2 ssa.Instruction) {
+						if c2, ok := in2.(ssa.CallInstruction); ok && c2.Common().StaticCallee() == cal && !in[g] {
+							only = false
+						}
+					})
+				}
+				if only {
+					add(cal)
+					grew = true
+				}
+			})
+		}
+		if !grew {
+			break
+		}
+	}
+	return order
+}
